@@ -41,7 +41,7 @@ def main():
                 if f.endswith(".json"):
                     cases.append(json.load(open(os.path.join(cdir, f))))
         if ck.tier == "quick":
-            nreg, nsing, nmax, nops = 200, 60, 25, 14
+            nreg, nsing, nmax, nops = 320, 80, 25, 14
         else:
             nreg, nsing, nmax, nops = 1500, 300, 60, 40
         for k in range(nreg):
@@ -63,11 +63,12 @@ def main():
     elif cases and any(o[0] == "CHG" and o[2] == "N" for o in cases[0]["ops"]):
         probes, cases = cases, []
 
-    lines = []
-    for k, c in enumerate(cases):
-        lines += lu.case_text(str(k), c)
-    rc, out, err = lu.run_harness(exe, lines, "C10")
-    blocks = lu.split_cases(out)
+    blocks, crashes = lu.run_all(exe, cases, "C10")
+    for (last, nobs, rc, err) in crashes:
+        cc = dict(cases[last])
+        cc["ops"] = cases[last]["ops"][:nobs + 1]
+        ck.violation("crash:D", "the implementation crashed (rc=%d) in case %d after %d observations" % (rc, last, nobs),
+                     {"kind": "crash", "case": cc, "stderr": err})
     for k, c in enumerate(probes):
         cid = "p%d" % k
         prc, pout, perr = lu.run_harness(exe, lu.case_text(cid, c), "C10p")
@@ -82,15 +83,6 @@ def main():
         else:
             cases.append(c)
             blocks[str(len(cases) - 1)] = lu.split_cases(pout).get(cid, [])
-    if rc != 0:
-        last = max([int(k) for k in blocks] or [0])
-        c = cases[last] if last < len(cases) else {}
-        nobs = len(blocks.get(str(last), []))
-        cc = dict(c)
-        if c:
-            cc["ops"] = c["ops"][:nobs + 1]
-        ck.violation("crash:D", "the implementation crashed (rc=%d) in case %d after %d observations" % (rc, last, nobs),
-                     {"kind": "crash", "case": cc, "stderr": err[-1500:]})
     Q = lu.Queries()
     pending = []
     for k, c in enumerate(cases):
